@@ -724,23 +724,47 @@ def tryIntoHttpResponse (J : JsonCodec) (d : RespDesc) (v : RespVal) : Outcome I
           | some b => .ok ⟨d.status, hs, b⟩
           | none => .err .json
 
-/-- One header field of a response, on the cloned header map: `headers.remove(NAME)` takes every
-value of the name away and yields the first. Optional: `to_str().ok()?.parse().ok()`; mandatory:
-missing, not visible ASCII or unparsable are errors. -/
+/-- One header field of a response, given what `headers.remove(NAME)` returned. Optional:
+`to_str().ok()?.parse().ok()` — anything unreadable is dropped; mandatory: missing, not visible
+ASCII or unparsable are errors (outer `none`). -/
+def readRespHeader (got : Option Str) (f : HeaderField) : Option (Option Str) :=
+  match got with
+  | some hv =>
+    if f.optional then some (if headerToStrOk hv then f.codec.norm hv else none)
+    else if headerToStrOk hv then (f.codec.norm hv).map some else none
+  | none => if f.optional then some none else none
+
+/-- The header fields of a response in declaration order, on the cloned header map:
+`headers.remove(NAME)` takes every value of the name away and yields the first. -/
 def decodeRespHeaders : Headers → List HeaderField → Option (List (Option Str))
   | _, [] => some []
   | hs, f :: fs =>
-    let got := hGet hs f.header
-    let hs' := hRemove hs f.header
-    let here : Option (Option Str) :=
-      match got with
-      | some hv =>
-        if f.optional then some (if headerToStrOk hv then f.codec.norm hv else none)
-        else if headerToStrOk hv then (f.codec.norm hv).map some else none
-      | none => if f.optional then some none else none
-    match here with
+    match readRespHeader (hGet hs f.header) f with
     | none => none
-    | some x => (decodeRespHeaders hs' fs).map (x :: ·)
+    | some x => (decodeRespHeaders (hRemove hs f.header) fs).map (x :: ·)
+
+/-- `typed_response_body_decl` (only `has_body_fields()`): the values of the body fields, and the
+whole-body value (newtype body / `manual_body_serde`). -/
+def decodeRespBody (J : JsonCodec) (d : RespDesc) (body : Str) :
+    FromOut (List (Option JVal) × List JVal) :=
+  if d.hasBodyFields then
+    match J.parse (bodyOrEmptyObject body) with
+    | none => .deser
+    | some j =>
+      match d.wholeBodyCodec with
+      | some c =>
+        match c.norm j with
+        | some x => .ok ([], [x])
+        | none => .deser
+      | none =>
+        match j with
+        | .obj o =>
+          match fieldsFromObj o d.bodyFields with
+          | some xs => .ok (xs, [])
+          | none => .deser
+        | .arr _ => .outside
+        | _ => .deser
+  else .ok ([], [])
 
 /-- Result of `try_from_http_response`. `server`: the error path (`FromHttpResponseError::Server`,
 built by the endpoint's error type from the whole response). -/
@@ -750,28 +774,11 @@ inductive FromResp where
   | deser
   | outside
 
-/-- `try_from_http_response`. -/
+/-- `try_from_http_response`: a status below 400 is the success path (body, then the fields in
+declaration order, the raw body last), anything else the error path. -/
 def tryFromHttpResponse (J : JsonCodec) (d : RespDesc) (r : HttpResponse) : FromResp :=
   if r.status < 400 then
-    -- typed_response_body_decl (only `has_body_fields()`)
-    match (if d.hasBodyFields then
-             match J.parse (bodyOrEmptyObject r.body) with
-             | none => FromOut.deser
-             | some j =>
-               match d.wholeBodyCodec with
-               | some c =>
-                 match c.norm j with
-                 | some x => .ok (([] : List (Option JVal)), [x])
-                 | none => .deser
-               | none =>
-                 match j with
-                 | .obj o =>
-                   match fieldsFromObj o d.bodyFields with
-                   | some xs => .ok (xs, [])
-                   | none => .deser
-                 | .arr _ => .outside
-                 | _ => .deser
-           else .ok ([], [])) with
+    match decodeRespBody J d r.body with
     | .methodMismatch => .deser
     | .deser => .deser
     | .outside => .outside
